@@ -97,6 +97,10 @@ class EquationParser(object):
             if len(varname) == 0:
                 msg += 'Line without a variable name - ignored: "%s"\n' % (equation,)
                 continue
+            if not varname.replace('(0)', '').strip().isidentifier():
+                # 'x <= 5', 'x(k-1) = 3', 'a b = 1': what stands left of the '=' is not a name (nor the initial condition of one).
+                msg += 'Line whose left hand side is not a variable name - ignored: "%s"\n' % (equation,)
+                continue
             self.AllEquations[varname] = eqn
             if varname == 'MaxTime':
                 try:
@@ -134,7 +138,7 @@ class EquationParser(object):
                     # A lagged variable is the previous value of ONE variable: 'x = y(k-1)'. Anything else around the lag
                     # ('y(k-1) + 1', '2*y(k-1)') cannot be represented; report the line instead of dropping part of it.
                     source = eqn[0:pos].strip()
-                    if len(eqn[pos+5:].strip()) > 0 or re.match('^[A-Za-z_][A-Za-z_0-9]*$', source) is None:
+                    if len(eqn[pos+5:].strip()) > 0 or not source.isidentifier():
                         msg += 'Lag inside a larger expression (use a separate variable for the lag) - ignored: "%s"\n' % (equation,)
                         del self.AllEquations[varname]
                         continue
